@@ -191,4 +191,4 @@ slicing_harness!(c12_decoders_never_panic_len3, 3);
 slicing_harness!(c12_decoders_never_panic_len4, 4);
 // thorough tier: longer records (the slicing logic does not depend on the length beyond SIZE + 1)
 slicing_harness!(c12_decoders_never_panic_len8, 8);
-slicing_harness!(c12_decoders_never_panic_len16, 16);
+slicing_harness!(c12_decoders_never_panic_sixteen_bytes, 16);
